@@ -245,6 +245,9 @@ func (g *ResGen) text() string {
 
 var tzs = []string{"Z", "UTC", "+05:30", "-11:00"}
 
+// TZLoc returns the location for "Z", "UTC" or a "+hh:mm" offset.
+func TZLoc(tz string) *time.Location { return tzLoc(tz) }
+
 func tzLoc(tz string) *time.Location {
 	switch tz {
 	case "Z", "UTC":
